@@ -688,3 +688,47 @@ func isErrorCtorFn(g *ssa.Function, depth int) bool {
 	}
 	return false
 }
+
+// elemIndex: the index value when v is an element read `x[i]` of a slice or array.
+func elemIndex(v ssa.Value) ssa.Value {
+	switch x := v.(type) {
+	case *ssa.UnOp:
+		if ia, ok := x.X.(*ssa.IndexAddr); ok && x.Op == token.MUL {
+			return ia.Index
+		}
+	case *ssa.Index:
+		return x.Index
+	}
+	return nil
+}
+
+// ascendingFromZero: v is the position of an in-order walk — the index of a `range` loop, or a
+// loop variable that starts at 0 and whose only other definition is itself plus one.
+func ascendingFromZero(v ssa.Value) bool {
+	step := func(x ssa.Value, of ssa.Value) bool {
+		bo, ok := x.(*ssa.BinOp)
+		if !ok || bo.Op != token.ADD || bo.X != of {
+			return false
+		}
+		k, ok := intConst(bo.Y)
+		return ok && k == 1
+	}
+	if p, ok := v.(*ssa.Phi); ok && isLoopHeader(p.Block()) && len(p.Edges) == 2 {
+		for i := range p.Edges {
+			if k, ok := intConst(p.Edges[i]); ok && k == 0 && step(p.Edges[1-i], p) {
+				return true
+			}
+		}
+		return false
+	}
+	if bo, ok := v.(*ssa.BinOp); ok && bo.Op == token.ADD {
+		if p, ok := bo.X.(*ssa.Phi); ok && isLoopHeader(p.Block()) && len(p.Edges) == 2 && step(v, p) {
+			for i := range p.Edges {
+				if k, ok := intConst(p.Edges[i]); ok && k == -1 && p.Edges[1-i] == v {
+					return true
+				}
+			}
+		}
+	}
+	return false
+}
